@@ -105,6 +105,7 @@ def parseOp (ws : List String) : Option Op :=
   | ["screate", o, env] => do some (Op.svcCreate (← o.toNat?) (parseEnv env))
   | ["sdelete", o] => o.toNat?.map Op.svcDelete
   | ["sdeletecut", o] => o.toNat?.map Op.svcDeleteCut
+  | ["devgone", o] => o.toNat?.map Op.devGone
   | ["ssync"] => some .svcSync
   | _ => none
 
